@@ -298,3 +298,62 @@ def task_lemma(kind, k, what):
             run.oblige("C01|%s/the-mirror-shows-the-published-%s-of-the-new-state" % (label, a), implies(on, after[a] == want[a]))
             run.oblige("C01|%s/other-properties'-%s-untouched" % (label, a), implies(z3.Not(on), after[a] == frame[a]))
     return task
+
+
+# ---------------------------------------------------------------------------------------------------
+# (T) delivery: where the cited transport contracts stop -- call-site obligations (two of them fail on the pinned tree: known findings)
+# ---------------------------------------------------------------------------------------------------
+def task_delivery_sites():
+    """C02 carries a message of any length only with the junk threshold disabled; C19/C02 order one connection.  (T) needs both for the
+    channel that feeds the mirror."""
+    def task(I, run):
+        if run.choice(2, "which call site") == 0:
+            mod = I.import_module("indi.transport.client.tcp")
+            h = I.call(mod.ns["ConnectionHandler"], [None, None, None], {"for_blobs": False})
+            th = h.fields["buffer"].fields["max_buffer_size_before_frontal_cleanup"]
+            run.oblige("C01|call-site/the-client's-control-connection-can-carry-a-definition-or-update-of-any-length", z3.BoolVal(th is None),
+                       note="threshold is %r" % (th,), witness=lambda m: {"replay_kind": "converge.long_message"})
+            return
+        # Client.start: how many connections deliver into the one mirror?
+        cl = I.import_module("indi.client.client").ns["Client"]
+        feeds = []
+
+        class Conn:
+            def __init__(self, tag):
+                self.tag = tag
+
+            def pyvc_getattr(self, I_, name):
+                if name == "connect":
+                    def connect(I2, a, k):
+                        feeds.append((self.tag, a[0] if a else k.get("callback")))
+                        return Handler(self.tag)
+                    return Native("connect", connect)
+                return MISSING
+
+        class Handler:
+            def __init__(self, tag):
+                self.tag = tag
+
+            def pyvc_getattr(self, I_, name):
+                if name in ("wait_for_messages", "send_message", "close"):
+                    return Native(name, lambda I2, a, k: None)
+                return MISSING
+        c = I.call(cl, [Conn("control"), Conn("blob")], {})
+        I.await_hook = lambda I_, v: v
+        asy = I.import_module("asyncio")
+
+        class Loop:
+            def pyvc_getattr(self, I_, name):
+                if name == "create_task":
+                    return Native(name, lambda I2, a, k: None)
+                return MISSING
+        asy.ns["get_running_loop"] = Native("get_running_loop", lambda I_, a, k: Loop())
+        try:
+            I.do_await(I.call(I.getattr(c, "start"), [], {}))
+        except IRaise as e:
+            run.fail("C01|call-site/Client.start-raises-nothing", "raised %s" % e)
+            return
+        pm = [t for t, cb in feeds if isinstance(cb, IBound) and cb.func.name == "process_message" and cb.self_ is c]
+        run.oblige("C01|call-site/one-ordered-channel-feeds-the-mirror(definitions-and-updates-cannot-overtake-each-other)", z3.BoolVal(len(pm) == 1),
+                   note="connections delivering into the mirror: %r" % (pm,), witness=lambda m: {"replay_kind": "converge.two_links"})
+    return task
